@@ -26,10 +26,12 @@ OutAllowed(jj, req, out) ==
         B  == req * (S + jj)
         lo == Min(A, B)
         hi == Max(A, B)
-    IN /\ out >= 0
-       /\ 2 * S * out >= 2 * lo - S - 2
-       /\ 2 * S * out <= Max(0, 2 * hi + S + 2)
-       /\ (jj = 0) => (out = Max(0, req))
+    IN \* zero jitter is the identity on whatever the rate function returns - also a negative value (a profile dipping
+       \* below zero); with jitter a negative request yields 0 and the debt is carried like any other remainder
+       IF jj = 0 THEN out = req
+       ELSE /\ out >= 0
+            /\ 2 * S * out >= 2 * lo - S - 2
+            /\ 2 * S * out <= Max(0, 2 * hi + S + 2)
 
 Step(r, out) ==
     /\ OutAllowed(J, r + b, out)
